@@ -59,7 +59,12 @@ def seeds():
     out = ["Two changes per property were written by independent sub-agents that saw only the property text and a scratch",
            "worktree (nothing from `/verif`). Each was confirmed here (`harness/seedtest.py confirm`: demo passes on the pristine",
            "tree, the pinned 288 tests still pass with the change, demo fails with it) and is kept under `seeded/<id>/`",
-           "(`patch.diff`, `demo.py`, `meta.json`). Detection = `./check <property> quick` on a worktree with the patch applied.", "",
+           "(`patch.diff`, `demo.py`, `meta.json`). Detection = `./check <property> quick` on a worktree with the patch applied.",
+           "Seeds -1/-2 are the first round, -3/-4 a second round whose authors were asked for changes a reviewer of the main",
+           "path would overlook (rare options, one-framework-only code, error paths, boundaries, cross-module agreement).",
+           "`[first run: missed; strengthened]` marks seeds the check of their property did NOT catch when first run; the check",
+           "was then extended (new event kinds / generators / oracle clauses / model parts, described in the builder reports",
+           "and in the check's evidence `rule`) and the row shows the result after that.", "",
            "| seed | property | caught by | first VIOLATION key | needs to manifest |", "|---|---|---|---|---|"]
     for d in sorted(glob.glob(os.path.join(ROOT, "seeded", "*"))):
         m = json.load(open(os.path.join(d, "meta.json")))
@@ -77,7 +82,10 @@ def seeds():
         status = ", ".join(caught) if caught else ("MISSED by " + ", ".join(missed) if missed else "not yet run")
         if caught and missed:
             status += " (missed by " + ", ".join(missed) + ")"
-        out.append(f"| {os.path.basename(d)} | {m['property']} | {status} | `{esc(key)}` | {esc(need)} |")
+        fr = m.get("first_run", "")
+        note = " [first run: missed; strengthened]" if fr.startswith("missed by the check of its own") else (
+               " [C01 misses it by design]" if fr.startswith("missed by C01") else (" [builder was told first]" if fr.startswith("the builder") else ""))
+        out.append(f"| {os.path.basename(d)} | {m['property']} | {status}{note} | `{esc(key)}` | {esc(need)} |")
     return "\n".join(out)
 
 
